@@ -26,8 +26,9 @@ fn("pyhms.logging_.get_logger", params={"log_level": "str"}, returns="ref:$Logge
 macro("ConfigOk", ["c"], """
     c != None and c.levels != None and c.options != None and kind(c.levels) == 0 and len(c.levels) >= 0
     and forall(lambda l: imp(0 <= l < len(c.levels), c.levels[l] != None and c.levels[l].lsc != None
-                              and WfProblem(c.levels[l].problem)
-                              and forall(lambda o: imp(in_chain(c.levels[l].problem, o), wowner(o) == None), o="ref:Problem")),
+                              and c.levels[l].problem != None and WfProblem(c.levels[l].problem)
+                              and forall(lambda o: imp(in_chain(c.levels[l].problem, o), wowner(o) == None), o="ref:Problem",
+                                         pat=in_chain(c.levels[l].problem, o))),
                pat=c.levels[l])
 """)
 
